@@ -217,8 +217,9 @@ impl_parse! {
         "tag" => out.tag = Some(parse_assign_str(input)?),
         "content" => out.content = Some(parse_assign_str(input)?),
         "untagged" => out.untagged = true,
-        "concrete" => out.concrete = parse_concrete(input)?,
-        "bound" => out.bound = Some(parse_bound(input)?),
+        // `concrete` and `bound` may be given more than once: the lists add up, as they do across attributes
+        "concrete" => out.concrete.extend(parse_concrete(input)?),
+        "bound" => out.bound.get_or_insert_with(Vec::new).extend(parse_bound(input)?),
     }
 }
 
@@ -230,6 +231,6 @@ impl_parse! {
         "tag" => out.0.tag = Some(parse_assign_str(input)?),
         "content" => out.0.content = Some(parse_assign_str(input)?),
         "untagged" => out.0.untagged = true,
-        "bound" => out.0.bound = Some(parse_bound(input)?),
+        "bound" => out.0.bound.get_or_insert_with(Vec::new).extend(parse_bound(input)?),
     }
 }
